@@ -186,9 +186,10 @@ def run(ck):
                 {"kind": "trace", "segment": [cellcommon.slim(x, 3000) for x in seg[:rj["accepted"] + 1]], "rejected_index": rj["accepted"]})
         cur = 0
         for l in open(tp):
-            if l.startswith('{"k":"Reset"') or '"k":"Reset"' in l[:300]:
+            # (replay traces were rewritten by json.dumps: "k": "Put")
+            if '"k":"Reset"' in l[:300] or '"k": "Reset"' in l[:300]:
                 nontrivial += cur >= 2; cur = 0
-            elif '"k":"Put"' in l or '"k":"Load"' in l:
+            elif '"k":"Put"' in l or '"k":"Load"' in l or '"k": "Put"' in l or '"k": "Load"' in l:
                 e = json.loads(l)
                 cur = max(cur, e.get("size", len(e.get("items", []))))
         nontrivial += cur >= 2
